@@ -385,3 +385,30 @@ def gen_C09(tier, rng):
         yield (f"poly.hist {hx(key)} {';'.join(sym(s) for s in h)}", "hist.random6")
     # the empty history
     yield (f"poly.hist {hx(keys[0])} -", "hist.empty")
+
+
+# ----------------------------------------------------------------------------- C20 (poly1305 part)
+
+def gen_C20(tier, rng):
+    """refusal matrix of the `Poly1305` object (the key is `&[u8; 32]` by type): `raw_result` into a buffer shorter
+    than 16 bytes (one below, zero; 16, one above, twice, very large are accepted), `input` after `result` /
+    `raw_result`; a second result is NOT refused (same tag), `reset` clears the flag"""
+    keys = [rng.rbytes(32), b"\xff" * 32, bytes(32)]
+    for key in keys:
+        for n_in in (0, 5, 16, 33):
+            pre = "" if n_in == 0 else f"i{hx(rng.rbytes(n_in))};"
+            for n in (0, 1, 15, 16, 17, 32, 100000):
+                kind = "refuse.outbuf" if n < 16 else "accept.outbuf"
+                yield (f"poly.hist {hx(key)} {pre}W{n}", kind)
+                # a refused raw_result ends the history; after an accepted one the object is finished
+                yield (f"poly.hist {hx(key)} {pre}W{n};R;W{n}", kind)
+            for first in ("R", "W", "W16", "W17"):
+                for second in ("i00", "i-", f"i{hx(rng.rbytes(16))}"):
+                    yield (f"poly.hist {hx(key)} {pre}{first};{second}", "refuse.input-after-result")
+                for second in ("R", "W", "W100", "R;W;R"):
+                    yield (f"poly.hist {hx(key)} {pre}{first};{second}", "accept.second-result")
+                yield (f"poly.hist {hx(key)} {pre}{first};W15", "refuse.outbuf")
+                yield (f"poly.hist {hx(key)} {pre}{first};r;i{hx(rng.rbytes(3))};R", "accept.after-reset")
+                yield (f"poly.hist {hx(key)} {pre}c;{first};x;i00;R", "accept.clone-before-result")
+                yield (f"poly.hist {hx(key)} {pre}{first};c;x;i00", "refuse.clone-after-result")
+        yield (f"poly.output_bytes {hx(key)}", "accept.output_bytes")
